@@ -68,7 +68,9 @@ def run(ctx, f, rep):
                     key = looked[2][1]
                     pop = pathq.mentions_call(key, lambda x: short(x[1]) == "pop_front")
                     conv = pathq.mentions_call(key, lambda x: short(x[1]) in ("try_into", "try_from"))
-                    key_ok = pop is not None and conv is not None and is_param_msg(pop[2][0])
+                    # the key is the popped first frame passed through the checked conversion and nothing else
+                    key_ok = pop is not None and conv is not None and is_param_msg(pop[2][0]) and \
+                        pathq.only_calls(key, ("pop_front", "unwrap", "expect", "try_into", "try_from", "branch", "clone", "into", "from", "as_ref", "borrow"))
                     hit = any(e[0] == "discr" and c == ("eq", 1) and pathq.mentions_call(e[1], lambda x: x == looked) is not None for (e, c, _, _) in p.conds[:ev.ncond])
                 item = ev.args[1]
                 rest = item[0] == "agg" and item[3] == "Message" and is_param_msg(item)
